@@ -662,7 +662,16 @@ where
     let failed = std::cell::Cell::new(false);
     let seen = std::cell::Cell::new(0u64);
     let cell = std::cell::RefCell::new(&mut out);
+    // developer aid: with VCHECK_TRACE_DIR set, the case about to be evaluated is written to
+    // <dir>/<sub>-<shard>.json first (to find a case that kills the process, e.g. by memory)
+    let trace_dir = std::env::var("VCHECK_TRACE_DIR").ok();
     let result = runner.run(&strategy, |case: C| {
+        if let Some(dir) = &trace_dir {
+            let _ = std::fs::write(
+                PathBuf::from(dir).join(format!("{name}-{shard}.json")),
+                serde_json::to_string(&ReplayFile { property: prop.to_string(), sub: name.to_string(), case: serde_json::to_value(&case).unwrap_or_default(), note: Some("trace".to_string()) }).unwrap_or_default(),
+            );
+        }
         *current.lock().unwrap() = Some((case.clone(), Instant::now()));
         let v = guarded(check, &case);
         *current.lock().unwrap() = None;
